@@ -29,6 +29,7 @@ ASSUMPTIONS = ["landmarks whose interpolation neighbourhood in the result touche
                "BooleanImage carries no grey levels: it is judged through the returned transform (itself tied to the landmarks) and a half-plane content",
                "integer dtypes are used with the order-0 ops (crop family, mirror) where decoding is exact"]
 DECIDING_TAPS = ["warp_funnel", "decode_at_landmarks"]
+REPLAY_PATHS = ['menpo/image/test']      # suite replay (thorough tier): the repository's own tests under these monitors
 SHARDS = {"quick": 8, "thorough": 16}
 OFF = 100.0
 
